@@ -65,7 +65,7 @@ func (c *compiler) compileChange(achange *parse.Change) *Change {
 	ldots := mc.dots
 	rdots := rc.dots
 	err := connectDots(c.fset, ldots, rdots, rc.dotAssoc)
-	reconnectDots(c.fset, ldots, mc.dotKinds, rdots, rc.dotKinds, rc.dotAssoc)
+	reconnectDots(c.fset, ldots, mc.dotKinds, rdots, rc.dotKinds, rc.dotAssoc, rc.patchStart-1, rc.patchEnd)
 	if err != nil {
 		// Without its partner a "..." written in the "+" section would
 		// silently stand for nothing. The "..." implied around a list
@@ -118,7 +118,22 @@ func (c *Change) Apply(d data.Data, cl Changelog) (_ *ast.File, modified bool, _
 // arguments of foo. If the "-" section has a "..." in a list of the same
 // type, the nearest one in front of it, or else the first one behind it, is
 // its partner.
-func reconnectDots(fset *token.FileSet, lhs []token.Pos, lkinds map[token.Pos]reflect.Type, rhs []token.Pos, rkinds map[token.Pos]reflect.Type, conns map[token.Pos]token.Pos) {
+//
+// The "..." implied in front of and behind a list of statements (at the
+// positions given by implied) belong to each other. One that is written in
+// the "+" section takes a written one of the "-" section if there is any:
+// in '+if ok {' '+  ...' '+}' '-if !bad {' '-  ...' '-}' the body of the new
+// statement is the body of the old one, not what precedes the statement.
+func reconnectDots(fset *token.FileSet, lhs []token.Pos, lkinds map[token.Pos]reflect.Type, rhs []token.Pos, rkinds map[token.Pos]reflect.Type, conns map[token.Pos]token.Pos, implied ...token.Pos) {
+	isImplied := func(p token.Pos) bool {
+		for _, q := range implied {
+			if p == q {
+				return true
+			}
+		}
+		return false
+	}
+
 	before := func(a, b token.Pos) bool {
 		pa, pb := fset.Position(a), fset.Position(b)
 		return pa.Line < pb.Line || pa.Line == pb.Line && pa.Column <= pb.Column
@@ -128,13 +143,13 @@ func reconnectDots(fset *token.FileSet, lhs []token.Pos, lkinds map[token.Pos]re
 		if !ok {
 			continue
 		}
-		if l, ok := conns[r]; ok && lkinds[l] == kind {
+		if l, ok := conns[r]; ok && lkinds[l] == kind && (isImplied(r) || !isImplied(l)) {
 			continue
 		}
 
 		var prev, next token.Pos
 		for _, l := range lhs {
-			if lkinds[l] != kind {
+			if lkinds[l] != kind || (!isImplied(r) && isImplied(l)) {
 				continue
 			}
 			if before(l, r) {
